@@ -262,6 +262,23 @@ def settings(quick=False):
     return out
 
 
+def random_rotation(rng, n, kind):
+    """proper rotation: 'tilt' = 5..38 degrees about a random axis perpendicular-ish to z (keeps z-axes within the
+    abs(e_z) >= 0.75 branch of GroupOp.eigen but off the axis), 'generic' = uniformly random"""
+    if n == 2:
+        t = rng.uniform(0, 2 * math.pi)
+        return np.array([[math.cos(t), -math.sin(t)], [math.sin(t), math.cos(t)]])
+    if kind == "tilt":
+        phi = rng.uniform(0, 2 * math.pi)
+        ax = np.array([math.cos(phi), math.sin(phi), rng.uniform(-0.3, 0.3)]); ax /= np.linalg.norm(ax)
+        th = math.radians(rng.uniform(5, 38))
+    else:
+        v = np.array([rng.gauss(0, 1) for _ in range(3)]); ax = v / np.linalg.norm(v)
+        th = rng.uniform(0.2, math.pi - 0.2)
+    K = np.array([[0, -ax[2], ax[1]], [ax[2], 0, -ax[0]], [-ax[1], ax[0], 0]])
+    return np.eye(3) + math.sin(th) * K + (1 - math.cos(th)) * (K @ K)
+
+
 def make_ops(H, A):
     from onsager import crystal
     Ai = np.linalg.inv(A)
@@ -329,6 +346,7 @@ def exhaustive(ck, rng):
         ck.note("CORRESPONDENCE BROKEN: " + str(e)[:300])
         codes = [None] * len(terms)
     norders = 0
+    nrot = 0
     for (name, A, Hl, kv, kt, n), code in zip(metas, codes):
         if code not in (0, None):
             raise RuntimeError("certificate for subgroup of %s (order %d) rejected by the Coq checker (code %s)" % (name, len(Hl), code))
@@ -349,6 +367,22 @@ def exhaustive(ck, rng):
                 problems["c20-exception"] = ("%s: %s" % (type(e).__name__, e), p); continue
             for key, msg in judge_bases(vb, tb, carts, kv, kt, n):
                 problems.setdefault(key, (msg, p))
+        # the same subgroup in rotated frames (cartrot -> Q cartrot Q^T, rot unchanged): symmetry axes in generic
+        # directions, in particular tilted away from z by less than 41 degrees
+        for qi in range(ck.n(2, 6)):
+            kindq = "tilt" if qi % 2 == 0 else "generic"
+            Q = random_rotation(rng, n, kindq)
+            opsq = make_ops(Hl, Q @ A)
+            cartsq = [g.cartrot for g in opsq]
+            p2 = list(range(len(opsq))); rng.shuffle(p2)
+            for p in (list(range(len(opsq))), p2):
+                norders += 1; nrot += 1
+                try:
+                    vb, tb = impl_bases([opsq[i] for i in p])
+                except Exception as e:
+                    problems["c20-exception"] = ("%s: %s (frame rotated by Q=%s)" % (type(e).__name__, e, Q.tolist()), p); continue
+                for key, msg in judge_bases(vb, tb, cartsq, kv, kt, n):
+                    problems.setdefault(key, (msg + " (frame rotated by Q=%s, %s)" % (np.round(Q, 6).tolist(), kindq), p))
         types = sorted(ops[i].eigen()[0] for i in range(len(ops)))
         ck.case(key=(name, Hl), nontrivial=len(Hl) > 1, kind="subgroup:%s|kv=%d|kt=%d" % (name, kv, kt),
                 sample={"setting": name, "order": len(Hl), "optypes": types, "invariant_vector_dim": kv, "invariant_tensor_dim": kt,
@@ -359,6 +393,7 @@ def exhaustive(ck, rng):
                           "order_of_operations": p, "exact_vector_dim": kv, "exact_tensor_dim": kt}, key=key + ("-2d" if n == 2 else "-3d"))
     ck.extra["subgroups"] = nsub
     ck.extra["subgroup_orderings_evaluated"] = norders
+    ck.extra["of_which_in_rotated_frames"] = nrot
     ck.extra["exhaustive"] = True
     return len([c for c in codes if c == 0])
 
@@ -502,7 +537,8 @@ def special_crystals():
 def run(ck):
     ck.rule = ("(a) every subgroup of O_h (2 lattice settings), D_6h (2 orientations), D_4, D_6 (2 orientations) x operation orderings "
                "(all for order <= 4, else sorted/reversed/random); (b) crystal pool (named + random systems, 2-D/3-D, 1-3 species, 1-3 sites, "
-               "1/12 grid) with 3 Wyckoffpos probes each; distinct = distinct subgroup (setting, set of rotations) or crystal; non-trivial = "
+               "1/12 grid, 60% of them in a randomly rotated Cartesian frame) with 3 Wyckoffpos probes each; every subgroup additionally in "
+               "rotated frames (cartrot -> Q cartrot Q^T: tilts of 5-38 degrees and generic rotations); distinct = distinct subgroup (setting, set of rotations) or crystal; non-trivial = "
                "subgroup of order > 1 / crystal with more than one atom or a non-trivial group")
     ck.trusted += ["harness/c20.py: exact Fraction linear algebra producing certificates (checked by Coq, not trusted), subgroup generation by "
                    "closure (counts reported), conversion of implementation output to the rational grid",
@@ -512,12 +548,31 @@ def run(ck):
     ncert = exhaustive(ck, rng)
     # crystals
     cases = []
+    from onsager import crystal as _crystal
+    def rotated(label, crys, kind):
+        """the same crystal in a rotated Cartesian frame (lattice -> Q lattice): a valid input with the same exact data"""
+        Q = random_rotation(rng, crys.dim, kind)
+        try:
+            c2 = _crystal.Crystal(Q @ crys.lattice, [[np.array(u) for u in lst] for lst in crys.basis])
+        except Exception as e:
+            ck.violation("%s: Crystal() failed on the rotated lattice: %s: %s" % (label, type(e).__name__, e), {"crystal": repr(crys), "Q": Q.tolist()}, key="c20-exception")
+            return None
+        ex2 = sg.Exact(c2)
+        return (label + "|rot-" + kind, c2, ex2) if ex2.ok else None
+    nrotc = 0
     for label, crys in special_crystals():
         ex = sg.Exact(crys)
         if not ex.ok: raise RuntimeError("special crystal %s is not rational" % label)
         cases.append(crystal_case(ck, rng, label, crys, ex))
+        r = rotated(label, crys, "tilt")
+        if r is not None: cases.append(crystal_case(ck, rng, r[0], r[1], r[2])); nrotc += 1
     for label, crys, chem, ex in sg.pool(rng, ck.n(18, 140), random_frac=0.7, nchem_max=3, maxatoms=3):
+        if rng.random() < 0.6:
+            r = rotated(label, crys, rng.choice(["tilt", "tilt", "generic"]))
+            if r is not None:
+                cases.append(crystal_case(ck, rng, r[0], r[1], r[2])); nrotc += 1; continue
         cases.append(crystal_case(ck, rng, label, crys, ex))
+    ck.extra["rotated_crystals"] = nrotc
     try:
         scodes = run_terms(ck, "sites", [c["site_term"] for c in cases], fn="check_sites", chunk=12, imports=SITE_IMPORTS)
         bterms = [t for c in cases for t in c["basis_terms"]]
